@@ -1,8 +1,10 @@
 import IcyVerif.Lemmas.Sixel
 set_option linter.unusedSimpArgs false
 set_option linter.unusedVariables false
-/-! After a raster attribute (`"Pan;Pad;Ph;Pv` or `"Pan;Pad;Pv`) the number of rows is frozen at the
-    declared height and rows only ever grow, until the next raster attribute. -/
+/-! After a raster attribute (`"Pan;Pad;Ph;Pv` or `"Pan;Pad;Pv`) — wherever in the payload it stands, also behind
+    picture data — the number of rows is frozen at the declared height (`Vec::resize` cuts rows decoded above it and
+    adds the missing ones) and rows only ever grow, until the next raster attribute.  The rows the attribute ADDS
+    (index ≥ the number of rows decoded before it) are at least the declared width. -/
 namespace IcyVerif.Sixel
 
 /-- size declared by the numbers of a raster attribute: `[pan, pad, height]` or `[pan, pad, width, height]` -/
@@ -11,15 +13,16 @@ def declared : List Nat → Option (Nat × Nat)
   | [_, _, w, h] => some (w, h)
   | _ => none
 
-structure Frozen (H m : Nat) (s : St) : Prop where
+structure Frozen (H k m : Nat) (s : St) : Prop where
   hs : s.heightSet = true
   len : s.rows.length = H
-  wide : ∀ r ∈ s.rows, m ≤ r
+  /-- the rows from index `k` on are at least `m` bytes wide -/
+  wide : ∀ i r, k ≤ i → s.rows[i]? = some r → m ≤ r
   st : s.state ≠ .readSize
 
-theorem pixelLoop_mono (m mask yPos lastLine x : Nat) (is : List Nat) (rows rows' : List Nat)
-    (h : pixelLoop mask yPos lastLine x is rows = .ok rows') (hw : ∀ r ∈ rows, m ≤ r) :
-    (∀ r ∈ rows', m ≤ r) ∧ rows'.length = rows.length := by
+theorem pixelLoop_mono (k m mask yPos lastLine x : Nat) (is : List Nat) (rows rows' : List Nat)
+    (h : pixelLoop mask yPos lastLine x is rows = .ok rows') (hw : ∀ i r, k ≤ i → rows[i]? = some r → m ≤ r) :
+    (∀ i r, k ≤ i → rows'[i]? = some r → m ≤ r) ∧ rows'.length = rows.length := by
   induction is generalizing rows with
   | nil => simp only [pixelLoop] at h; injection h with h; subst h; exact ⟨hw, rfl⟩
   | cons i is ih =>
@@ -30,7 +33,6 @@ theorem pixelLoop_mono (m mask yPos lastLine x : Nat) (is : List Nat) (rows rows
       · split at h
         · simp at h
         · rename_i len hsome
-          have hmem : len ∈ rows := List.mem_of_getElem? hsome
           by_cases hh : len ≤ x * 4 ∧ (x + 1) * 4 > hugeLimit
           · rw [if_pos hh] at h; simp at h
           · rw [if_neg hh] at h
@@ -38,19 +40,24 @@ theorem pixelLoop_mono (m mask yPos lastLine x : Nat) (is : List Nat) (rows rows
             have hge : len ≤ len' := by subst hl'; split <;> omega
             by_cases hi : x * 4 + 3 < len'
             · rw [if_pos hi] at h
-              have hw' : ∀ r ∈ rows.set (yPos + i) len', m ≤ r := by
-                intro r hrm
-                rcases List.mem_or_eq_of_mem_set hrm with h' | h'
-                · exact hw r h'
-                · have := hw len hmem
-                  rw [h']; omega
+              have hw' : ∀ j r, k ≤ j → (rows.set (yPos + i) len')[j]? = some r → m ≤ r := by
+                intro j r hk hj
+                by_cases hij : yPos + i = j
+                · subst hij
+                  have hlt : yPos + i < rows.length := (List.getElem?_eq_some_iff.1 hsome).1
+                  rw [List.getElem?_set_self hlt] at hj
+                  injection hj with hj
+                  have := hw _ len hk hsome
+                  omega
+                · rw [List.getElem?_set_ne hij] at hj
+                  exact hw j r hk hj
               have := ih _ h hw'
               exact ⟨this.1, by rw [this.2]; simp⟩
             · rw [if_neg hi] at h; simp at h
     · exact ih rows h hw
 
-theorem translate_frozen {H m : Nat} {s s' : St} (f : Frozen H m s) (ch : Char) (h : translate s ch = .ok s') :
-    Frozen H m s' := by
+theorem translate_frozen {H k m : Nat} {s s' : St} (f : Frozen H k m s) (ch : Char) (h : translate s ch = .ok s') :
+    Frozen H k m s' := by
   unfold translate at h
   split at h
   · simp at h
@@ -73,14 +80,14 @@ theorem translate_frozen {H m : Nat} {s s' : St} (f : Frozen H m s) (ch : Char) 
     split at h
     · simp at h
     · injection h with h; subst h
-      have := pixelLoop_mono m _ _ _ _ _ _ _ hp f.wide
+      have := pixelLoop_mono k m _ _ _ _ _ _ _ hp f.wide
       exact ⟨f.hs, by simp only; rw [this.2]; exact f.len, this.1, f.st⟩
   | err e => simp at h
   | panic p => simp at h
   | huge => simp at h
 
-theorem sixelData_frozen {H m : Nat} {s s' : St} (f : Frozen H m s) (ch : Char) (hc : ch ≠ '"')
-    (h : sixelData s ch = .ok s') : Frozen H m s' := by
+theorem sixelData_frozen {H k m : Nat} {s s' : St} (f : Frozen H k m s) (ch : Char) (hc : ch ≠ '"')
+    (h : sixelData s ch = .ok s') : Frozen H k m s' := by
   unfold sixelData at h
   split at h
   · injection h with h; subst h; exact ⟨f.hs, f.len, f.wide, by simp⟩
@@ -104,8 +111,8 @@ theorem andThen_ok {α β : Type} {o : Out α} {f : α → Out β} {b : β} (h :
   | panic p => simp [Out.andThen] at h
   | huge => simp [Out.andThen] at h
 
-theorem repeatN_frozen {H m : Nat} (ch : Char) (hc : ch ≠ '"') (n : Nat) {s s' : St} (f : Frozen H m s)
-    (h : repeatN (fun t => sixelData t ch) n s = .ok s') : Frozen H m s' := by
+theorem repeatN_frozen {H k m : Nat} (ch : Char) (hc : ch ≠ '"') (n : Nat) {s s' : St} (f : Frozen H k m s)
+    (h : repeatN (fun t => sixelData t ch) n s = .ok s') : Frozen H k m s' := by
   induction n generalizing s with
   | zero => simp only [repeatN] at h; injection h with h; subst h; exact f
   | succ n ih =>
@@ -147,8 +154,8 @@ theorem colorArm_frame {s s' : St} (h : colorArm s = .ok s') :
       · simp at h
   · injection h with h; subst h; exact hs
 
-theorem parseChar_frozen {H m : Nat} {s s' : St} (f : Frozen H m s) (ch : Char) (hc : ch ≠ '"')
-    (h : parseChar s ch = .ok s') : Frozen H m s' := by
+theorem parseChar_frozen {H k m : Nat} {s s' : St} (f : Frozen H k m s) (ch : Char) (hc : ch ≠ '"')
+    (h : parseChar s ch = .ok s') : Frozen H k m s' := by
   unfold parseChar at h
   split at h
   · exact sixelData_frozen f ch hc h
@@ -159,7 +166,7 @@ theorem parseChar_frozen {H m : Nat} {s s' : St} (f : Frozen H m s) (ch : Char) 
     · injection h with h; subst h; exact ⟨f.hs, f.len, f.wide, f.st⟩
     · obtain ⟨s1, h1, h2⟩ := andThen_ok h
       have fr := colorArm_frame h1
-      have f1 : Frozen H m s1 := ⟨by rw [fr.2.1]; exact f.hs, by rw [fr.1]; exact f.len, by rw [fr.1]; exact f.wide,
+      have f1 : Frozen H k m s1 := ⟨by rw [fr.2.1]; exact f.hs, by rw [fr.1]; exact f.len, by rw [fr.1]; exact f.wide,
         by rw [fr.2.2]; exact f.st⟩
       exact sixelData_frozen f1 ch hc h2
   · rename_i hst; exact absurd hst f.st
@@ -174,8 +181,8 @@ theorem parseChar_frozen {H m : Nat} {s s' : St} (f : Frozen H m s) (ch : Char) 
         exact ⟨f1.hs, f1.len, f1.wide, by simp⟩
       · simp at h
 
-theorem run_frozen {H m : Nat} (cs : List Char) {s s' : St} (f : Frozen H m s) (hc : ∀ c ∈ cs, c ≠ '"')
-    (h : run s cs = .ok s') : Frozen H m s' := by
+theorem run_frozen {H k m : Nat} (cs : List Char) {s s' : St} (f : Frozen H k m s) (hc : ∀ c ∈ cs, c ≠ '"')
+    (h : run s cs = .ok s') : Frozen H k m s' := by
   induction cs generalizing s with
   | nil => simp only [run] at h; injection h with h; subst h; exact f
   | cons c cs ih =>
@@ -194,10 +201,25 @@ theorem run_append (s : St) (a b : List Char) : run s (a ++ b) = (run s a).andTh
     | panic p => rfl
     | huge => rfl
 
-/-- the raster arm itself: declared `(W, H)` gives exactly `H` rows; all of them at least `4*W` bytes
-    wide if there was no picture data before -/
+/-- `Vec::resize`: what stands at an index beyond the old length is the fill value -/
+theorem getElem?_resizeRows_new {rows : List Nat} {n fill i r : Nat} (hi : rows.length ≤ i)
+    (h : (resizeRows rows n fill)[i]? = some r) : r = fill := by
+  unfold resizeRows at h
+  split at h
+  · rw [List.getElem?_take] at h
+    split at h
+    · have : rows[i]? = none := List.getElem?_eq_none hi
+      rw [this] at h; simp at h
+    · simp at h
+  · rw [List.getElem?_append_right hi, List.getElem?_replicate] at h
+    split at h
+    · injection h with h; exact h.symm
+    · simp at h
+
+/-- the raster arm itself, wherever it is executed: declared `(W, H)` gives exactly `H` rows — rows decoded above
+    `H` are cut —; the rows it adds (index ≥ the old number of rows) are `4*W` bytes wide -/
 theorem sizeArm_frozen {s s1 : St} {W H : Nat} (hd : declared s.nums = some (W, H)) (h : sizeArm s = .ok s1) :
-    Frozen H (if s.rows = [] then 4 * W else 0) s1 := by
+    Frozen H s.rows.length (4 * W) s1 := by
   unfold declared at hd
   split at hd
   · rename_i a b h3 hs
@@ -209,7 +231,7 @@ theorem sizeArm_frozen {s s1 : St} {W H : Nat} (hd : declared s.nums = some (W, 
     split at h
     · simp at h
     · injection h with h; subst h
-      exact ⟨rfl, by simp only [length_resizeRows], by simp, by simp⟩
+      exact ⟨rfl, by simp only [length_resizeRows], by intro i r _ _; omega, by simp⟩
   · rename_i a b w h4 hs
     injection hd with hd; injection hd with h1 h2; subst h1; subst h2
     simp only [sizeArm, hs, List.length_cons, List.length_nil] at h
@@ -220,16 +242,35 @@ theorem sizeArm_frozen {s s1 : St} {W H : Nat} (hd : declared s.nums = some (W, 
     · simp at h
     · injection h with h; subst h
       refine ⟨rfl, by simp only [length_resizeRows], ?_, by simp⟩
-      intro r hr
+      intro i r hi hr
       simp only at hr
-      split
-      · rename_i he
-        rw [he] at hr
-        rcases mem_resizeRows hr with h' | h'
-        · simp at h'
-        · omega
-      · omega
+      have := getElem?_resizeRows_new hi hr
+      omega
   · simp at hd
+
+/-- a row that exists and is `m` wide bounds the common row length from below -/
+theorem rowLen_ge_of_getElem? {rows : List Nat} {i r m : Nat} (h : rows[i]? = some r) (hm : m ≤ r) : m ≤ rowLen rows := by
+  have := (foldl_max_ge rows 0).2 r (List.mem_of_getElem? h)
+  unfold rowLen; omega
+
+/-- the final `#` of `parse_from` leaves the parser in the colour state with no numbers; a further `#` changes nothing -/
+theorem flush_idem {s sf : St} (hst : s.state = .readSize) (h : run s ['#'] = .ok sf) : run sf ['#'] = .ok sf := by
+  rw [run_cons] at h
+  obtain ⟨s1, h1, h2⟩ := andThen_ok h
+  simp only [run] at h2
+  injection h2 with h2; subst h2
+  have hp : parseChar s '#' = (sizeArm s).andThen fun s' => sixelData s' '#' := by
+    unfold parseChar; rw [hst]; simp
+  rw [hp] at h1
+  obtain ⟨s0, _, h0⟩ := andThen_ok h1
+  have hd1 : sixelData s0 '#' = .ok { s0 with nums := [], state := .readColor } := by simp [sixelData]
+  rw [hd1] at h0
+  injection h0 with h0; subst h0
+  rw [run_cons]
+  have : parseChar { s0 with nums := [], state := .readColor } '#' = .ok { s0 with nums := [], state := .readColor } := by
+    simp [parseChar, colorArm, setColor, defineColor, sixelData, Out.andThen]
+  rw [this]
+  simp [Out.andThen, run]
 
 theorem rowLen_ge {rows : List Nat} {m : Nat} (hne : rows ≠ []) (h : ∀ r ∈ rows, m ≤ r) : m ≤ rowLen rows := by
   cases rows with
